@@ -177,7 +177,24 @@ def gen_lifecycle():
     out += "def treeMutable : List Str := %s\n" % strlist(sorted(t_written))
     out += "def treeReset : List Str := %s\n" % strlist(sorted(t_reset))
     out += "def treeInitCallsReset : Bool := %s\n" % ("true" if t_init_calls_reset else "false")
-    # ---- phases: per-class slots; they are re-created by reset iff `phases` is established
+    # ---- phase objects: attributes written on them outside __init__ (own methods, or through
+    # `self.parser.phase.X = …` / `self.parser.phases[...].X = …`)
+    ph_mut = set()
+    for cls in ast.walk(ptree):
+        if isinstance(cls, ast.ClassDef) and cls.name.endswith("Phase"):
+            for m in cls.body:
+                if isinstance(m, ast.FunctionDef) and m.name != "__init__":
+                    ph_mut |= attr_targets(m, is_self)
+    def via_phase(v):
+        if isinstance(v, ast.Attribute) and v.attr == "phase":
+            return True
+        if isinstance(v, ast.Subscript) and isinstance(v.value, ast.Attribute) and v.value.attr == "phases":
+            return True
+        return False
+    ph_mut |= attr_targets(ptree, via_phase)
+    out += "/-- attributes of phase objects written outside their __init__ -/\n"
+    out += "def phaseMutable : List Str := %s\n" % strlist(sorted(ph_mut))
+    out += "def phasesRecreatedByReset : Bool := %s\n" % ("true" if "phases" in established else "false")
     out += "-- fingerprint HTMLParser.reset %s\n-- fingerprint HTMLParser._parse %s\n-- fingerprint TreeBuilder.reset %s\n" % (
         sha(ast.dump(methods["reset"])), sha(ast.dump(methods["_parse"])), sha(ast.dump(bmethods["reset"])))
     return out + FOOTER
